@@ -31,6 +31,8 @@ structure IndexDef where
   name : Bytes
   key : KeyDef
   throughput : Bool := false
+  /-- the request carries no attribute definitions for this index (UpdateTable) -/
+  noDefs : Bool := false
 deriving Repr, Inhabited
 
 structure CreateTable where
@@ -308,12 +310,13 @@ def redefinesKeyAttr (t : Table) (defs : List (Bytes × Bytes)) : Bool :=
   defs.any fun (n, ty) => (keyAttrsInUse t).contains n && (alookup n t.attrs).getD [] != ty
 
 /-- `UpdateTable`: attribute definitions of the created indexes are merged first (a definition that re-types a key attribute in use is rejected), then
-    the changes are applied in order; a failing change stops the call, earlier ones stay -/
+    the changes are applied in order; a failing change stops the call and the table stays as it was before the request
+    (`Table.UpdateIndexes`) -/
 def updateTable (c : Client) (name : Bytes) (changes : List IndexChange) : Client × Out :=
   match alookup name c.tables with
   | none => (c, .err .resourceNotFound none)
   | some t =>
-    let defs := changes.flatMap fun ch => match ch with | .create d => defsOf d.key | .delete _ => []
+    let defs := changes.flatMap fun ch => match ch with | .create d => if d.noDefs then [] else defsOf d.key | .delete _ => []
     if redefinesKeyAttr t defs then (c, .err .validation none) else
     let t := { t with attrs := defs.foldl (fun acc (n, ty) => ainsert n ty acc) t.attrs }
     let rec go (t : Table) : List IndexChange → Table × Option ErrClass
@@ -326,10 +329,9 @@ def updateTable (c : Client) (name : Bytes) (changes : List IndexChange) : Clien
         if ahas n t.indexes then go { t with indexes := aerase n t.indexes } rest
         else (t, some .resourceNotFound)
     let (t', e) := go t changes
-    let c' := { c with tables := ainsert name t' c.tables }
     match e with
-    | none => (c', .describe (describe t'))
-    | some cls => (c', .err cls none)
+    | none => ({ c with tables := ainsert name t' c.tables }, .describe (describe t'))
+    | some cls => (c, .err cls none)
 
 /-! ### data operations -/
 
